@@ -156,10 +156,14 @@ def run(chk):
                             return chain
 
                         def cls(t):
-                            if any(math.isclose(t, z, rel_tol=1e-9) for z in zero):
-                                return "split-of-new-keeps-nothing" if zero_split_of_new(t) else "split-keeps-nothing"
+                            iszero = any(math.isclose(t, z, rel_tol=1e-9) for z in zero)
+                            if iszero and zero_split_of_new(t):
+                                return "split-of-new-keeps-nothing"
                             if nsplits(t) >= 2:
+                                # several -es of one time (whatever they keep) whose new populations are joined crosswise: F21
                                 return "several-same-time-splits"
+                            if iszero:
+                                return "split-keeps-nothing"
                             if join_chain(t):
                                 return "join-chain"
                             return None
@@ -210,8 +214,16 @@ def run(chk):
                 ev_a, ev_b = msparse.parse(a)[0]["events"], rej
                 diff_t = set(x[1] for x, y in zip(ev_a, ev_b) if x != y)
                 many_splits = bool(diff_t) and all(sum(1 for e in rej if e[0] == "s" and e[1] == t) >= 2 for t in diff_t)
+
+                def split_into_chain(t):
+                    """exactly one -es at t, and at t a population is joined into a population that is itself joined onward"""
+                    js = [e for e in rej if e[0] == "j" and e[1] == t]
+                    return (sum(1 for e in rej if e[0] == "s" and e[1] == t) == 1
+                            and any(a[3] == b[2] for a in js for b in js if a is not b))
+                one_split_chain = bool(diff_t) and all(split_into_chain(t) for t in diff_t)
                 chk.violation("from_ms:order-dependent-acceptance" + (":option-after-same-time-join" if after_join else
-                                                                     ":several-same-time-splits" if many_splits else ""),
+                                                                     ":several-same-time-splits" if many_splits else
+                                                                     ":split-and-join-chain" if one_split_chain else ""),
                               "two orders of commuting same-time options: one accepted, one rejected", dict(rep, accepted=a, rejected=b))
         chk.sample(dict(command=cmd, N0=N0, result=ir[0] if ir[0] == "ok" else ir[1]), limit=4)
     drv.close()
